@@ -99,6 +99,7 @@ type layEv struct {
 	Field string
 	Buf   string
 	Ctx   string // handle (item/left/right) an inlined location event belongs to
+	Alt   string // for put: "<type> <value>" naming used when the bytes are appended to a record
 }
 
 func (e layEv) String() string {
@@ -747,6 +748,10 @@ func destOf(v ssa.Value, depth int) string {
 
 func (le *layEval) evalCall(fr *frame, call *ssa.Call, events *[]layEv) {
 	c := call.Common()
+	if b, ok := c.Value.(*ssa.Builtin); ok && b.Name() == "append" && len(c.Args) == 2 {
+		le.evalAppend(fr, call, events)
+		return
+	}
 	f := c.StaticCallee()
 	if f == nil {
 		return
@@ -757,6 +762,10 @@ func (le *layEval) evalCall(fr *frame, call *ssa.Call, events *[]layEv) {
 		bits := strings.TrimPrefix(name[strings.Index(name, ".Put")+4:], "Uint")
 		br := le.evBuf(fr, c.Args[1])
 		ev := layEv{Op: "put", Order: orderOf(c.Args[0]), Width: "u" + bits, Field: describe(c.Args[2])}
+		ev.Alt = c.Args[2].Type().String() + " " + describe(c.Args[2])
+		if s := le.evInt(fr, c.Args[2]); s != nil {
+			ev.Alt = c.Args[2].Type().String() + " " + s.String()
+		}
 		if br != nil {
 			ev.Off, ev.Buf = br.off.String(), br.root
 			if br.ln != nil && br.ln.String() != widthBytes(bits) {
@@ -1002,4 +1011,32 @@ func destHandle(call *ssa.Call) string {
 		}
 	}
 	return "?"
+}
+
+// evalAppend: rec = append(rec, x...) building a record: an event at the current length of
+// rec.  When x is a scratch array that was just filled by a PutUintN, the event takes that
+// put's byte order / width / value and the staging put disappears.
+func (le *layEval) evalAppend(fr *frame, call *ssa.Call, events *[]layEv) {
+	c := call.Common()
+	base := le.evBuf(fr, c.Args[0])
+	if base == nil || base.ln == nil {
+		return
+	}
+	src := c.Args[1]
+	ln := le.lenOf(fr, src)
+	pos := base.off.add(base.ln, 1)
+	ev := layEv{Op: "bufput", Order: "-", Width: ln.String(), Off: pos.String(), Field: describe(src), Buf: "record"}
+	if sb := le.evBuf(fr, src); sb != nil && strings.HasPrefix(sb.root, "make(") {
+		for i := len(*events) - 1; i >= 0; i-- {
+			p := (*events)[i]
+			if p.Op == "put" && p.Buf == sb.root && p.Off == sb.off.String() {
+				ev.Order, ev.Field = p.Order, p.Alt
+				ev.Width = widthBytes(strings.TrimPrefix(p.Width, "u"))
+				*events = append((*events)[:i], (*events)[i+1:]...)
+				break
+			}
+		}
+	}
+	*events = append(*events, ev)
+	fr.env[call] = &bufRef{root: base.root, off: base.off, ln: base.ln.add(ln, 1)}
 }
